@@ -1,11 +1,29 @@
-//! Implementation-side oracles over all exported wire types (placeholder; see h_wire.rs).
-use svh::*;
+//! Implementation-side oracles over ALL wire types exported by smoltcp::wire (failing-input
+//! search of properties C06 and C07; never part of the proof).  `oracle_c06.rs`: generated
+//! reprs -> emit into differently filled buffers -> identical bytes -> parse -> equal repr,
+//! and parse(mutated packet) = Ok r -> emit r -> parse = Ok r.  `oracle_c07.rs`: arbitrary /
+//! mutated / truncated bytes -> new_checked, accessors, Repr::parse, PrettyPrinter under
+//! catch_unwind with a watchdog.  Oracle cases carry `kind=c06|c07` for the replay.
 use std::io::Write;
+use svh::*;
 
-pub fn oracle_c06(_seed: u64, _n: usize, _tier: &str, out: &mut dyn Write) {
-    writeln!(out, "STATS {{\"cases\":0}}").unwrap();
+#[path = "oracle_c06.rs"]
+pub mod c06;
+#[path = "oracle_c07.rs"]
+pub mod c07;
+
+pub fn oracle_c06(seed: u64, n: usize, tier: &str, out: &mut dyn Write) {
+    c06::run(seed, n, tier, out)
 }
-pub fn oracle_c07(_seed: u64, _n: usize, _tier: &str, out: &mut dyn Write) {
-    writeln!(out, "STATS {{\"cases\":0}}").unwrap();
+pub fn oracle_c07(seed: u64, n: usize, tier: &str, out: &mut dyn Write) {
+    c07::run(seed, n, tier, out)
 }
-pub fn oracle_replay(_cases: &[Case], _out: &mut dyn Write) {}
+pub fn oracle_replay(cases: &[Case], out: &mut dyn Write) {
+    for c in cases {
+        match c.get("kind") {
+            Some("c06") => c06::replay(c, out),
+            Some("c07") => c07::replay(c, out),
+            _ => {}
+        }
+    }
+}
